@@ -24,6 +24,9 @@ CLAIMS = {
  "C12": ("asnlint+mirscan", "static analysis: MIR def-use + dominator analysis of Backend::generate_module (per-module state reset from the current header dominates every reader); template/mangler pairing rules",
          "For every backend, each environment-typed field is assigned from the current module's header at a point dominating every call that can reach a reader of it (no leak between modules); same header for tagging pass and definition; import templates and manglers paired. Equality of per-module output across compilations is not computed.",
          "Trusted: MIR dominators; all definitions of a module share one header."),
+ "C16": ("asnlint+mirscan", "static analysis: table containment against rustc's own keyword list (enumerated by the MIR driver); guard/emission pairing and truth tables of the manglers; identifier-annotation decisions evaluated for equal/different spellings",
+         "The keyword table must contain every strict/reserved keyword of every edition the compiler knows; each mangler tests the spelling it emits and escapes hits; every emitting fn (set computed from the code) records the original name exactly when the spelling differs. Collisions after mangling are not decided.",
+         "Trusted: rustc_span's keyword classification; weak keywords are legal identifiers."),
  "C20": ("asnlint+mirscan", "static analysis: MIR effect classification and dominators (delivery call dominated by the Ok edge of internal_compile()?); pipeline normal forms; decision tables of output_generated, make_output_mode and main",
          "Every write effect on the compile path is the single delivery call in compile(), dominated by the Ok edge; the delivered text is the `generated` of the same pipeline compile_to_string returns; destination, CLI flag and exit-status tables are exhaustive; asn1! pipeline shape. Thorough tier adds compile_fail typestate witnesses.",
          "Not decided: file-system semantics (atomicity, read-only destinations)."),
@@ -56,7 +59,7 @@ def main():
         "hooks": {"guard": "librasn_compiler_verif", "enable": "none needed: static analysis reads /repo's source and MIR; no hooks are compiled into /repo", "baseline_off_cmd": "cd /repo && cargo test --workspace --no-fail-fast --offline", "source_commits": [], "add_only": True},
         "engines": [
             {"name": "asnlint", "path": "/verif/tools/asnlint", "serves_properties": sorted(CLAIMS), "kind_free_text": "syn-based static analyser of the unexpanded source (table extraction, abstract evaluation, template analysis, structural rules) + verdict logic"},
-            {"name": "mirscan", "path": "/verif/tools/mirscan", "serves_properties": ["C08", "C11", "C12", "C20"], "kind_free_text": "rustc_private driver (nightly) emitting MIR facts: resolved call graph, panic-capable terminators, field def-use, CFG"},
+            {"name": "mirscan", "path": "/verif/tools/mirscan", "serves_properties": ["C08", "C11", "C12", "C16", "C20"], "kind_free_text": "rustc_private driver (nightly) emitting MIR facts: resolved call graph, panic-capable terminators, field def-use, CFG"},
         ],
         "checks": checks,
         "not_applicable": na,
